@@ -7,6 +7,10 @@ use.  `features` selects optional input classes, several of which are known-find
   foreign_cond    type conditions the resolver does not recognise                    (F4/F23)
   weird_names     keyword / reserved / underscore / colliding names                  (F18, F7)
   untyped_inline  inline fragments without a type condition                          (F2)
+  var_names       operation variables named from SAFE_VAR_NAMES (C03; must work)
+  var_names_clash ... and from CLASH_VAR_NAMES                                       (F7/F18 for variables)
+  var_defaults    (with var_names*) some variables get default literals
+  arg_probe       both custom scalars + root fields probe0..n whose arguments cover all wrapper shapes (C03/C07)
 
 The main stream (features=()) stays inside the part of GraphQL the generator is expected to handle.
 """
@@ -42,6 +46,16 @@ WEIRD_WORDS = ["class", "from", "None", "copy", "json", "schema", "_leading", "m
                "self", "validate", "async", "_1x", "type", "match"]
 ENUM_VALUES = ["RED", "GREEN", "BLUE", "ACTIVE", "INACTIVE", "lowercase", "MixedCase", "A1", "NONE_", "X_Y"]
 WEIRD_ENUM_VALUES = ["None", "True", "class", "from", "mro", "name", "value", "_x"]
+# C03: variable names.  SAFE: camelCase, acronyms, keywords, soft keywords, pydantic attribute names, names of the
+# method's locals (renamed by the generator) -- no two of them share a Python name.  CLASH: names that break the
+# generated method (DESIGN §7 F7/F18): self/kwargs (also after snake-casing), gql, pairs mangled to one name,
+# query together with _query.
+SAFE_VAR_NAMES = ["userId", "firstName", "HTTPCode", "id2", "class", "from", "None", "async", "match", "type", "copy",
+                  "json", "model_dump", "schema", "validate", "query", "variables", "response", "data", "x_Y",
+                  "fooBar", "isOK", "filter", "input", "first", "URLValue", "in", "is", "def", "Optional", "List",
+                  "UNSET", "execute", "url", "headers"]
+CLASH_VAR_NAMES = ["self", "kwargs", "gql", "foo_bar", "self_", "kwargs_", "class_", "_query", "_data", "Query",
+                   "_userId", "user_id", "ser_DateTime", "_1"]
 WRAPPERS = ["{}", "{}!", "[{}]", "[{}!]", "[{}]!", "[{}!]!", "[[{}]]", "[[{}!]!]!"]
 
 
@@ -106,6 +120,8 @@ class Gen:
             self.custom.append("DateTime")
         if r.random() < 0.3:
             self.custom.append("JSONBlob")
+        if "arg_probe" in self.features:
+            self.custom = ["DateTime", "JSONBlob"]
         leafs = SCALARS + list(self.enums) + self.custom
         self.ifaces = {}
         iface_used = {"id", "name"}
@@ -187,6 +203,20 @@ class Gen:
             used.add(fname)
         for _ in range(2):
             q[self.word(used)] = (self.wrap(r.choice(leafs)), [])
+        if "arg_probe" in self.features:
+            # C03/C07: root fields whose arguments cover every wrapper shape over scalars, enums, custom scalars and
+            # input objects, some with argument defaults
+            for i in range(r.randint(3, 5)):
+                args = []
+                aused = set()
+                for _ in range(r.randint(2, 5)):
+                    base = r.choice(leafs + in_names + self.custom)
+                    t = self.wrap(base, 0.35)
+                    d = None
+                    if base not in in_names and r.random() < 0.2:
+                        d = self.default_literal(t, base)
+                    args.append((self.word(aused), t, d))
+                q[f"probe{i}"] = (self.wrap(r.choice(SCALARS + self.custom), 0.5), args)
         self.objs_all = dict(self.objs)
         self.query_fields = q
         self.mutation_fields = {}
@@ -276,16 +306,38 @@ class Gen:
 
     def variable(self, type_str: str, default=None) -> str:
         n = f"v{len(self.opvars)}"
+        if "var_names" in self.features or "var_names_clash" in self.features:
+            used = {x[0] for x in self.opvars}
+            pool = SAFE_VAR_NAMES
+            if "var_names_clash" in self.features and self.rng.random() < 0.45:
+                pool = CLASH_VAR_NAMES
+            free = [w for w in pool if w not in used]
+            if free and self.rng.random() < 0.85:
+                n = self.rng.choice(free)
+            if "var_defaults" in self.features and default is None and self.rng.random() < 0.3:
+                default = self.var_default(type_str)
+            self.opvars.append((n, type_str, default))
+            return "$" + n
         if self.weird and self.rng.random() < 0.3:
             n = self.rng.choice(["fooBar", "class", "query", "variables", "data", "_x", "response"]) + str(len(self.opvars))
         self.opvars.append((n, type_str, default))
         return "$" + n
+
+    def var_default(self, type_str: str):
+        """A default literal for a variable of the given type (scalars / enums / lists of them only)."""
+        base = type_str.replace("[", "").replace("]", "").replace("!", "")
+        if base not in SCALARS and base not in self.enums:
+            return None
+        return self.default_literal(type_str, base)
 
     def arg_text(self, fdef) -> str:
         parts = []
         r = self.rng
         for an, a in fdef.args.items():
             required = isinstance(a.type, GraphQLNonNull) and a.default_value is None
+            if "arg_probe" in self.features:  # (the default stream keeps its historical RNG consumption)
+                from graphql import Undefined
+                required = isinstance(a.type, GraphQLNonNull) and a.default_value is Undefined
             if not required and r.random() < 0.4:
                 continue
             if r.random() < 0.7:
@@ -355,6 +407,12 @@ class Gen:
         r = self.rng
         used = set()
         parts = []
+        if top and "arg_probe" in self.features and t is self.gs.query_type:
+            probes = [f for f in t.fields if f.startswith("probe")]
+            for fname in r.sample(probes, min(len(probes), r.randint(1, 2))):
+                sel = self.field_sel(t, fname, t.fields[fname], depth, used)
+                if sel:
+                    parts.append(sel)
         if isinstance(t, GraphQLObjectType):
             parts += self.fields_of(t, depth, used, 1, 4 if not top else 3)
             if not top and r.random() < 0.25:
